@@ -38,8 +38,8 @@ def unscratch():
     shutil.rmtree(SCRATCH, ignore_errors=True)
 
 
-def confirm(prop, n):
-    src = os.path.join(SEEDOUT, prop)
+def confirm(prop, n, sid=None, srcroot=None):
+    src = os.path.join(srcroot or SEEDOUT, prop)
     patch = os.path.join(src, f"patch{n}.diff")
     demo = os.path.join(src, f"demo{n}_test.go")
     meta = os.path.join(src, f"meta{n}.json")
@@ -79,7 +79,7 @@ def confirm(prop, n):
     if not ok:
         print(json.dumps(res, indent=1)[:1500])
         return False
-    sid = f"{prop}-{n}"
+    sid = sid or f"{prop}-{n}"
     d = os.path.join(VERIF, "seeded", sid)
     os.makedirs(d, exist_ok=True)
     shutil.copyfile(patch, os.path.join(d, "patch.diff"))
@@ -163,7 +163,7 @@ def table():
 if __name__ == "__main__":
     a = sys.argv[1:]
     if a[0] == "confirm":
-        confirm(a[1], a[2])
+        confirm(a[1], a[2], a[3] if len(a) > 3 else None, a[4] if len(a) > 4 else None)
     elif a[0] == "detect":
         detect(a[1], a[2] if len(a) > 2 else "quick", a[3:] or None)
     elif a[0] == "table":
